@@ -546,6 +546,22 @@ class Interp:
                     else:
                         args.append(self.expr(f["defaults"][i], [self.globals]))
             return self.call(Closure(f["params"], f["body"], [self.globals], f["name"]), args)
+        if k == "mcall":
+            # receiver first, then the arguments in parameter order
+            f = self.funcs[e[3]]
+            recv = self.expr(e[2], env)
+            names = e[5] if len(e) > 5 and e[5] else (None,) * len(e[4])
+            pnames = [pn for pn, _ in f["params"]][1:]
+            slot = {}
+            for i, (a, nm) in enumerate(zip(e[4], names)):
+                slot[i if nm is None else pnames.index(nm)] = a
+            args = [recv]
+            for i in range(len(pnames)):
+                if i in slot:
+                    args.append(self.expr(slot[i], env))
+                else:
+                    args.append(self.expr(f["defaults"][i + 1], [self.globals]))
+            return self.call(Closure(f["params"], f["body"], [self.globals], f["name"]), args)
         if k == "calll":
             clo = self.expr(e[2], env)
             args = [self.expr(a, env) for a in e[3]]
@@ -717,6 +733,12 @@ def pexpr(e, em=None, top=False):
     if k == "call":
         names = e[4] if len(e) > 4 and e[4] else (None,) * len(e[3])
         return "%s(%s)" % (e[2], LSEP.join(pitem(a) if nm is None else "%s = %s" % (nm, pexpr(a)) for a, nm in zip(e[3], names)))
+    if k == "mcall":
+        names = e[5] if len(e) > 5 and e[5] else (None,) * len(e[4])
+        recv = pexpr(e[2])
+        if e[2][0] not in ("var", "field", "index", "call", "mcall", "struct"):
+            recv = "(" + recv + ")" if not recv.startswith("(") else recv
+        return "%s.%s(%s)" % (recv, e[3], LSEP.join(pitem(a) if nm is None else "%s = %s" % (nm, pexpr(a)) for a, nm in zip(e[4], names)))
     if k == "calll":
         return "%s(%s)" % (pexpr(e[2]), LSEP.join(pitem(a) for a in e[3]))
     if k == "lam":
@@ -887,6 +909,8 @@ def emit(prog, before_main=None):
         for v, ts in variants:
             em.w("  | %s%s" % (v, ("(" + ", ".join(ann(t) for t in ts) + ")") if ts else ""))
     for f in prog["funcs"]:
+        if f.get("method_of"):
+            continue
         dfl = f.get("defaults") or {}
         ps = LSEP.join("%s: %s%s" % (n, f.get("param_anns", {}).get(n) or ann(t), (" = " + pexpr(dfl[i])) if i in dfl else "")
                        for i, (n, t) in enumerate(f["params"]))
@@ -896,6 +920,24 @@ def emit(prog, before_main=None):
         emit_stmts(em, b[2], linemap, more=b[3] is not None)
         if b[3] is not None:
             em.w(pexpr(b[3], top=True))
+        em.ind -= 1
+        em.w("}")
+    for f in prog["funcs"]:
+        if not f.get("method_of"):
+            continue
+        dfl = f.get("defaults") or {}
+        ps = LSEP.join(["self"] + ["%s: %s%s" % (n, ann(t), (" = " + pexpr(dfl[i])) if i in dfl else "")
+                                   for i, (n, t) in enumerate(f["params"]) if i > 0])
+        em.w("extend %s {" % f["method_of"])
+        em.ind += 1
+        em.w("fn %s(%s) -> %s {" % (f["name"], ps, ann(f["ret"])))
+        em.ind += 1
+        b = f["body"]
+        emit_stmts(em, b[2], linemap, more=b[3] is not None)
+        if b[3] is not None:
+            em.w(pexpr(b[3], top=True))
+        em.ind -= 1
+        em.w("}")
         em.ind -= 1
         em.w("}")
     for ln in before_main or []:
@@ -1121,7 +1163,11 @@ class Gen:
             if g:
                 return g
         if k < 52:
-            fs = [f for f in self.funcs if f["ret"] == ty and f.get("callable", True)]
+            if r.chance(30):
+                m = self.method_call(ty, d)
+                if m:
+                    return m
+            fs = [f for f in self.funcs if f["ret"] == ty and f.get("callable", True) and not f.get("method_of")]
             if fs:
                 f = r.choice(fs)
                 self.features.add("call")
@@ -1624,7 +1670,15 @@ class Gen:
                     self.declare(n, g[1], False)
                     return [("let", n, g[1], g, False, False)]
                 return [("expr", g)]
-        fs = [f for f in self.funcs if f.get("callable", True)]
+        if r.chance(25):
+            m = self.method_call(None, d, any_ret=True)
+            if m:
+                if m[1] != VOID:
+                    n = self.fresh("x")
+                    self.declare(n, m[1], False)
+                    return [("let", n, m[1], m, False, False)]
+                return [("expr", m)]
+        fs = [f for f in self.funcs if f.get("callable", True) and not f.get("method_of")]
         if fs:
             f = r.choice(fs)
             e = self.call_node(f, d)
@@ -1894,15 +1948,30 @@ class Gen:
             self.features.add("call-named")
         return ("call", f["ret"], f["name"], args, tuple(names))
 
-    def gen_func(self, idx):
+    def method_call(self, ty, d, any_ret=False):
+        """`receiver.method(args)` on a user struct"""
         r = self.r
-        name = "fun%d" % idx
-        nparams = r.range(0, 3)
+        ms = [f for f in self.funcs if f.get("method_of") and f.get("callable", True) and (any_ret or f["ret"] == ty)]
+        if not ms:
+            return None
+        f = r.choice(ms)
+        recv = self.expr(("struct", f["method_of"]), d - 1)
+        c = self.call_node(dict(f, params=f["params"][1:], defaults={i - 1: v for i, v in (f.get("defaults") or {}).items()}), d)
+        self.features.add("method-call")
+        return ("mcall", f["ret"], recv, f["name"], c[3], c[4] if len(c) > 4 else None)
+
+    def gen_func(self, idx, method_of=None):
+        r = self.r
+        name = ("fun%d" if method_of is None else "mem%d") % idx
+        nparams = r.range(0, 3) if method_of is None else r.range(0, 2)
         params = [(self.fresh("a"), VOID if r.chance(7) else self.rand_type(1, allow_fn=r.chance(20))) for _ in range(nparams)]
+        if method_of is not None:
+            params.insert(0, ("self", ("struct", method_of)))
+            self.features.add("method")
         defaults = {}
         if self.cfg.get("defaults", True):
             for i, (pn, pt) in enumerate(params):
-                if r.chance(28):
+                if r.chance(28) and pn != "self":
                     defaults[i] = self.default_expr(pt)
                     self.features.add("default-" + ("literal" if defaults[i][0] == "lit" else "expression"))
         k = r.below(10)
@@ -1928,6 +1997,8 @@ class Gen:
         self.ret_ty = None
         self.scopes = saved_scopes
         f = {"name": name, "params": params, "ret": ret, "body": body, "defaults": defaults}
+        if method_of is not None:
+            f["method_of"] = method_of
         if r.chance(40):
             # effectful: print a marker first so that evaluation order is observable
             body[2].insert(0, ("print", ("lit", STR, "<%s>" % name), False))
@@ -1952,6 +2023,10 @@ class Gen:
             self.declare(n, t, False)
         for i in range(r.range(0, 3)):
             self.gen_func(i)
+        if self.cfg.get("methods", True) and self.structs:
+            for i, sname in enumerate(sorted(self.structs)):
+                if r.chance(45):
+                    self.gen_func(i, method_of=sname)
         if self.cfg["generics"] and r.chance(55):
             for i in range(r.range(1, 3)):
                 self.gen_generic_func(i)
@@ -2181,7 +2256,7 @@ def gen_program(rng, cfg=None):
 
 def _is_expr(n):
     return isinstance(n, tuple) and n and isinstance(n[0], str) and n[0] in (
-        "lit", "var", "bin", "neg", "not", "if", "block", "match", "call", "calll", "lam", "tuple", "array", "struct",
+        "lit", "var", "bin", "neg", "not", "if", "block", "match", "call", "mcall", "calll", "lam", "tuple", "array", "struct",
         "variant", "field", "index", "method", "try", "unwrap", "str", "hcall")
 
 
